@@ -71,6 +71,9 @@ pub fn run(k: &str, a: &Value) -> Option<Value> {
             p.set(&x2);
             o.v("a pure translation change translates by that vector", p.transform().to_homogeneous().as_slice(), (Iso2::translation(d[0], d[1]) * before).to_homogeneous().as_slice(), 1e-9 * (s + d[0].abs() + d[1].abs()));
         }
+        #[cfg(not(feature = "hooks"))]
+        "jac2" => { return Some(json!({"hooks_unavailable": true})); }
+        #[cfg(feature = "hooks")]
         "jac2" => {
             let (t0, rc) = (iso2(&a["iso"]), p2(&a["rc"]));
             let mut p = RcParams2::from_initial(&t0, &rc);
@@ -165,6 +168,18 @@ pub fn run(k: &str, a: &Value) -> Option<Value> {
             let curve = engeom::Curve2::from_points(&pts, f(&a["tol"]), false).unwrap();
             let points: Vec<Point2> = a["points"].as_array().unwrap().iter().map(p2).collect();
             let t0 = iso2(&a["iso"]);
+            #[cfg(feature = "hooks")]
+            if let Some(xv) = a.get("x") {
+                // the problem object driven to the model's final parameters (no iteration): new -> set_params(x*)
+                let x = fv(xv);
+                let (tr, res) = engeom::verif_hooks::points_to_curve_eval(&points, &curve, &t0, &[[x[0], x[1], x[2]]]);
+                for (i, p) in points.iter().enumerate() {
+                    let m = tr * p;
+                    let want = curve.at_closest_to_point(&m).surface_point().scalar_projection(&m);
+                    let got = if i < res.len() { res[i] } else { f64::NAN };
+                    o.s(&format!("state after set_params: residual {i} describes the transform"), got, want, 1e-9 * (1.0 + want.abs()));
+                }
+            }
             match points_to_curve(&points, &curve, &t0) {
                 Ok(al) => {
                     for (i, p) in points.iter().enumerate() {
@@ -187,6 +202,18 @@ pub fn run(k: &str, a: &Value) -> Option<Value> {
             let points = vec![p3(&a["point"])];
             let t0 = iso3(&a["iso"]);
             let to_plane = a["mode"].as_str().unwrap() == "ToPlane";
+            #[cfg(feature = "hooks")]
+            if let Some(xv) = a.get("x") {
+                let x = fv(xv);
+                let (tr, res) = engeom::verif_hooks::points_to_mesh_eval(&points, &mesh, &t0, if to_plane { DistMode::ToPlane } else { DistMode::ToPoint }, &[[x[0], x[1], x[2], x[3], x[4], x[5]]]);
+                for (i, p) in points.iter().enumerate() {
+                    let m = tr * p;
+                    let sp = mesh.surf_closest_to(&m);
+                    let want = if to_plane { sp.scalar_projection(&m).abs() } else { (m - sp.point).norm() };
+                    let got = if i < res.len() { res[i] } else { f64::NAN };
+                    o.s(&format!("state after set_params: residual {i} describes the transform"), got, want, 1e-9 * (1.0 + want.abs()));
+                }
+            }
             match points_to_mesh(&points, &mesh, &t0, if to_plane { DistMode::ToPlane } else { DistMode::ToPoint }) {
                 Ok(al) => {
                     for (i, p) in points.iter().enumerate() {
